@@ -212,13 +212,29 @@ def gen_module(rng, gen):
 
 
 def run_modules(lines):
+    """run harness/impl/module_runner.py on the request lines (in parallel chunks), one JSON answer per line"""
+    from concurrent.futures import ThreadPoolExecutor
     env = {**os.environ, **C.py_env('0')}
-    p = subprocess.run([C.PY, os.path.join(C.VERIF, 'harness', 'impl', 'module_runner.py')],
-                       input='\n'.join(lines) + '\n', capture_output=True, text=True, timeout=1200, env=env)
-    out = [json.loads(l) for l in p.stdout.split('\n') if l.strip()]
-    if len(out) != len(lines):
-        out += [dict(ok=False, err=f'runner died: {p.stderr[-500:]}')] * (len(lines) - len(out))
-    return out
+
+    def one(part):
+        p = subprocess.run([C.PY, os.path.join(C.VERIF, 'harness', 'impl', 'module_runner.py')],
+                           input='\n'.join(part) + '\n', capture_output=True, text=True, timeout=1500, env=env)
+        out = []
+        for l in p.stdout.split('\n'):
+            if l.strip():
+                try:
+                    out.append(json.loads(l))
+                except ValueError:
+                    out.append(dict(ok=False, err='unreadable answer'))
+        if len(out) != len(part):
+            out += [dict(ok=False, err=f'runner died: {p.stderr[-500:]}')] * (len(part) - len(out))
+        return out[:len(part)]
+    nproc = 1 if len(lines) < 30 else min(C.NCPU, 12)
+    k = (len(lines) + nproc - 1) // nproc
+    parts = [lines[i:i + k] for i in range(0, len(lines), k)]
+    with ThreadPoolExecutor(max_workers=len(parts)) as ex:
+        outs = list(ex.map(one, parts))
+    return [x for o in outs for x in o]
 
 
 # ------------------------------------------------------------------------------------------------
@@ -231,6 +247,7 @@ def pr_req(simp, ids, t):
 
 def run(tier, seed):
     R = C.Report(CID, tier, seed)
+    PS.drop_stale_known(R, PS.MY_PROPS)
     rng = C.rng_for(seed, CID)
     quick = tier == 'quick'
 
@@ -335,60 +352,65 @@ def run(tier, seed):
                         dict(notation=nt.expr or nt.label, position=i, args=[PC.show(a) for a in base],
                              args2=[PC.show(a) for a in alt], rendering=s1))
 
-    # 3. pretty files vs binary files, shipped + generated modules, both optimize settings
-    lines = ['OPCODES'] + [f'SHIPPED {n}' for n in ('propositional', 'small_theory', 'substitution', 'kore', 'definedness')]
+    # 3. pretty files vs binary files, shipped + generated modules, both optimize settings (in batches: the
+    #    pretty files with their stack dumps are large)
     mgen = G.Gen(C.rng_for(seed, CID + ':modules'), notations=[nt for nt in sides.shipped if nt.family is None and nt.chunks is not None],
                  syms=(1, 2, 3))
-    specs = [gen_module(mgen.rng, mgen) for _ in range(40 if quick else 1500)]
-    lines += ['GEN ' + json.dumps(s) for s in specs]
-    outs = run_modules(lines)
-    opcodes = outs[0]['res'] if outs[0].get('ok') else {}
-    total_steps = 0
-    rejected = 0
-    emit_jobs = []
-    for line, o in zip(lines[1:], outs[1:]):
-        if not o.get('ok'):
-            rejected += 1
-            R.hist['module:not-serialisable'] = R.hist.get('module:not-serialisable', 0) + 1
-            if line.startswith('SHIPPED'):
-                R.violation(f'C19:module-crash:{line}', f'{line}: {o.get("err")}', dict(module=line, error=o.get('err'), tb=o.get('tb')))
-            continue
-        problems, nsteps = compare_files(o['res'], opcodes)
-        total_steps += nsteps
-        for mode in ('plain', 'opt'):      # model of the two interpreters (Py/Serial.v) on the same call sequence
-            try:
-                calls, raws, blob = [], [], b''
-                for ph in ('gamma', 'claim', 'proof'):
-                    _, rw, cl = pretty_steps(o['res'][mode][ph]['pretty'], raw=True)
-                    calls += cl
-                    raws += rw
-                    blob += bytes.fromhex(o['res'][mode][ph]['bin'])
-                emit_jobs.append((line, mode, calls, raws, blob))
-            except FormatError:
-                pass
-        R.case(line, True, 'module:' + ('shipped' if line.startswith('SHIPPED') else 'generated'))
-        if problems:
-            where, what = problems[0]
-            R.violation('C19:lines-vs-opcodes:' + what.split(' ')[0],
-                        f'{line[:60]}: {where}: {what}', dict(module=line, where=where, what=what, all=problems[:10]))
-    ereqs = [('EMIT', ' '.join([str(len(calls))] + [t for c in calls for t in c])) for _, _, calls, _, _ in emit_jobs]
-    eans = sides.model(ereqs, cfg)
-    emit_bad = 0
-    for (line, mode, calls, raws, blob), a in zip(emit_jobs, eans):
-        R.case(('emit', line, mode), True, 'serial-model')
-        ok = False
-        if a.startswith('B 1 ') and ' | ' in a:
-            bs, _, st = a[4:].partition(' | ')
-            mbytes = bytes(int(x) for x in bs.split()) if bs.strip() else b''
-            msteps = [''.join(chr(int(x)) for x in part.split()) for part in st.split(' ; ')] if calls else []
-            ok = (mbytes == blob and msteps == raws)
-        elif a.startswith('B 1') and not calls:
-            ok = (blob == b'')
-        if not ok:
-            emit_bad += 1
-            mismatches.append(dict(op='EMIT', args=line[:200] + ' ' + mode, model=a[:300], impl=blob.hex()[:300]))
-    R.notes.append({'serial_model_jobs': len(emit_jobs), 'serial_model_mismatches': emit_bad})
-    R.notes.append({'modules': len(lines) - 1, 'modules_not_serialisable': rejected, 'instructions_compared': total_steps,
+    specs = [gen_module(mgen.rng, mgen) for _ in range(40 if quick else 600)]
+    all_lines = [f'SHIPPED {n}' for n in ('propositional', 'small_theory', 'substitution', 'kore', 'definedness')]
+    all_lines += ['GEN ' + json.dumps(s) for s in specs]
+    opcodes = (run_modules(['OPCODES'])[0].get('res') or {})
+    total_steps = rejected = emit_jobs_n = emit_bad = 0
+    BATCH = 48
+    for b0 in range(0, len(all_lines), BATCH):
+        lines = all_lines[b0:b0 + BATCH]
+        outs = run_modules(lines)
+        emit_jobs = []
+        for line, o in zip(lines, outs):
+            if not o.get('ok'):
+                rejected += 1
+                R.hist['module:not-serialisable'] = R.hist.get('module:not-serialisable', 0) + 1
+                if line.startswith('SHIPPED'):
+                    R.violation(f'C19:module-crash:{line}', f'{line}: {o.get("err")}', dict(module=line, error=o.get('err'), tb=o.get('tb')))
+                continue
+            problems, nsteps = compare_files(o['res'], opcodes)
+            total_steps += nsteps
+            for mode in ('plain', 'opt'):      # model of the two interpreters (Py/Serial.v) on the same call sequence
+                try:
+                    calls, raws, blob = [], [], b''
+                    for ph in ('gamma', 'claim', 'proof'):
+                        _, rw, cl = pretty_steps(o['res'][mode][ph]['pretty'], raw=True)
+                        calls += cl
+                        raws += rw
+                        blob += bytes.fromhex(o['res'][mode][ph]['bin'])
+                    emit_jobs.append((line, mode, calls, raws, blob))
+                except FormatError:
+                    pass
+            R.case(line, True, 'module:' + ('shipped' if line.startswith('SHIPPED') else 'generated'))
+            if problems:
+                where, what = problems[0]
+                R.violation('C19:lines-vs-opcodes:' + what.split(' ')[0],
+                            f'{line[:60]}: {where}: {what}', dict(module=line, where=where, what=what, all=problems[:10]))
+        ereqs = [('EMIT', ' '.join([str(len(calls))] + [t for c in calls for t in c])) for _, _, calls, _, _ in emit_jobs]
+        eans = sides.model(ereqs, cfg)
+        for (line, mode, calls, raws, blob), a in zip(emit_jobs, eans):
+            R.case(('emit', line, mode), True, 'serial-model')
+            emit_jobs_n += 1
+            ok = False
+            if a.startswith('B 1 ') and ' | ' in a:
+                bs, _, st = a[4:].partition(' | ')
+                mbytes = bytes(int(x) for x in bs.split()) if bs.strip() else b''
+                msteps = [''.join(chr(int(x)) for x in part.split()) for part in st.split(' ; ')] if calls else []
+                ok = (mbytes == blob and msteps == raws)
+            elif a.startswith('B 1') and not calls:
+                ok = (blob == b'')
+            if not ok:
+                emit_bad += 1
+                if len(mismatches) < 50:
+                    mismatches.append(dict(op='EMIT', args=line[:200] + ' ' + mode, model=a[:300], impl=blob.hex()[:300]))
+        del outs, emit_jobs, ereqs, eans
+    R.notes.append({'serial_model_jobs': emit_jobs_n, 'serial_model_mismatches': emit_bad})
+    R.notes.append({'modules': len(all_lines), 'modules_not_serialisable': rejected, 'instructions_compared': total_steps,
                     'pretty_tie_mismatches': len(mismatches), 'distinguish_pairs': len(dmeta)})
 
     if proof_broken and not R.violations:
